@@ -14,6 +14,7 @@
     localtz  "-" not set | "L" { "," wall ">" instant }   the provider's localize, tabulated by the harness
   Results:
     al_add       trig
+    al_wall      trig      (wall seconds, delta, offset of the result wall time: the zoneinfo `+`)
     al_triggers  "s:" ints ";e:" ints ";a:" trigs             (comma separated)
     at_state     acknowledged ";" is_active ";" trigger        is_active: 1 | 0 | err:<E>; trigger: trig | err:<E>
     al_times     "ok" { "|" index ":" trig ";" acknowledged ";" is_active ";" trigger } | "err:<E>"
@@ -187,6 +188,11 @@ def handleAlarm (op : String) (args : List String) : Option String :=
     match decTrigO t, td.toInt? with
     | some (some t), some td => some (encTrig (add t td))
     | _, _ => some "bad-args"
+  | "al_wall", [w, td, off, _tag] =>
+    -- zoneinfo: wall-clock `+`; `off` is the offset the provider assigns to the resulting wall time
+    match w.toInt?, td.toInt?, off.toInt? with
+    | some w, some td, some off => some (encTrig (.aware (wallAdd (fun _ => off) w td)))
+    | _, _, _ => some "bad-args"
   | "al_triggers", [a, _tag] =>
     match decAlarm a with
     | some a =>
